@@ -198,11 +198,16 @@ def c20(run, ctx):
     _t.builder_helpers(run, ctx)
     _t.compile_conditional(run, ctx)
     _t.atomic_and_group_arms(run, ctx)
+    # a repetition counter is state like any slot: the alternative a counted repeat creates must be pushed AFTER the
+    # incremented counter is stored when it is the loop exit's sibling (lazy: the body alternative has to carry
+    # count + 1, greedy: the exit alternative is indifferent) -- the order of store and push decides which counter
+    # value an abandoned alternative comes back with (seed C20-r6-1 moved the store behind the push in both arms)
+    fam_vm.repeat_arms(run, ctx)
 
 
 PROPS["C20"] = {"fn": c20, "level": "other",
     "technique": "ownership rules over MIR (who writes State) + must-pass-through obligations on State::save/push/pop/stack_push/stack_pop and the key steps of backtrack_cut + atomic / negative-look-around arms of the interpreter",
-    "claim": "Decides the undo-log discipline structurally: State's fields are written only inside impl State; the branch stack and undo log grow only in push/save; every slot write is preceded by finding the slot in the current delta or logging its old value and counting it; push records (pc, ix, nsave) and opens an empty delta; pop replays exactly nsave entries and restores the stored nsave; the explicit stack lives in saves and is written only through save(); BeginAtomic pushes backtrack_count(), EndAtomic cuts to the popped value; FailNegativeLookAround pops to its own branch. For backtrack_cut the necessary key steps (truncate(count), undo-log bounds, first-entry-per-slot compaction, new nsave) are checked; that the algorithm as a whole restores the right values over all operation histories is not decided.",
+    "claim": "Decides the undo-log discipline structurally: State's fields are written only inside impl State; the branch stack and undo log grow only in push/save; every slot write is preceded by finding the slot in the current delta or logging its old value and counting it; push records (pc, ix, nsave) and opens an empty delta; pop replays exactly nsave entries and restores the stored nsave; the explicit stack lives in saves and is written only through save(); BeginAtomic pushes backtrack_count(), EndAtomic cuts to the popped value; FailNegativeLookAround pops to its own branch; the counted-repeat arms store the incremented counter before they create their alternative. For backtrack_cut the necessary key steps (truncate(count), undo-log bounds, first-entry-per-slot compaction, new nsave) are checked; that the algorithm as a whole restores the right values over all operation histories is not decided.",
     "note": "Template balance of BeginAtomic/EndAtomic on every compiled path is C15's TMPL rule. Shape obligations are necessary conditions; a behaviour-preserving rewrite of these functions is reported as anchor-missing.",
     "explanation": "MIR is scanned for writes and &mut borrows of State fields in every body; the HIR of each State method is path-enumerated and each obligation evaluated per path."}
 
@@ -379,6 +384,11 @@ def c19(run, ctx):
     fam_parse.escape_table(run, ctx)
     # comments / free-spacing blanks inside `(?(N) )` are trivia: the bare-test decision must not see them
     fam_parse.conditional_rule(run, ctx)
+    # two spellings of one case-less character differ in the `casei` tag of their Literal node (table escapes and
+    # escaped punctuation are tagged false, hex escapes and the bare character carry the active flag): identical
+    # results then rest on the byte-wise literal fast path being taken only when EVERY part is case-sensitive
+    # (seed C19-r6-1 let the first child of a concatenation decide)
+    fam_tmpl.literal_fast_path(run, ctx)
 
 
 _c05_old = c05
@@ -412,6 +422,7 @@ def c06(run, ctx):
     fam_taint.recursion(run, ctx)
     fam_taint.byte_steps(run, ctx)
     fam_taint.error_mapping(run, ctx)
+    fam_parse.whitespace_advance(run, ctx)
     fam_enc.printable_rule(run, ctx)
     fam_tmpl.compile_repeat(run, ctx)
     # to_str's `panic!("attempting to format hard expr")` is audited as unreachable because only non-hard sub-trees are
@@ -485,6 +496,6 @@ PROPS["C17"] = {"fn": c17, "level": "other",
     "explanation": "Character sets are extracted from HIR patterns and from the dependency's source text and compared as sets."}
 PROPS["C19"] = {"fn": c19, "level": "other",
     "technique": "sibling agreement of syntax forms, must-pass-through on flag save/restore, escape table rows",
-    "claim": "Narrow structural claim on the bookkeeping each documented equivalence depends on: named / Python-named / plain groups count identically; every backreference spelling goes through a constructor that registers and bounds the group; <..> and '..' delimiter forms and (?P=..)/(?P>..) are parsed with identical options, relative references resolve to curr_group + 1 - n, names win over numbers; scoped flag groups restore the saved flags after their body on every path to Ok and unscoped ones do not; flag letters update distinct single bits that take effect where documented; possessive quantifiers parse to AtomicGroup(Repeat); the escape rows \\A \\z \\b \\B \\< \\> \\K \\G \\h \\H \\e .. \\x \\u \\U \\Z expand as documented. Tree equality of arbitrary respellings over the pattern space is not decided.",
+    "claim": "Narrow structural claim on the bookkeeping each documented equivalence depends on: named / Python-named / plain groups count identically; every backreference spelling goes through a constructor that registers and bounds the group; <..> and '..' delimiter forms and (?P=..)/(?P>..) are parsed with identical options, relative references resolve to curr_group + 1 - n, names win over numbers; scoped flag groups restore the saved flags after their body on every path to Ok and unscoped ones do not; flag letters update distinct single bits that take effect where documented; possessive quantifiers parse to AtomicGroup(Repeat); the escape rows \\A \\z \\b \\B \\< \\> \\K \\G \\h \\H \\e .. \\x \\u \\U \\Z expand as documented; the byte-wise literal fast path (Info::is_literal) is taken only when every part of the run is a case-sensitive literal, so spellings that differ in the casei tag of a case-less character cannot diverge. Tree equality of arbitrary respellings over the pattern space is not decided.",
     "note": _SHAPE_NOTE,
     "explanation": "Call sites of the two backreference constructors are enumerated and compared; parse_flags is path-enumerated; escape branches are located by their canonical condition and compared with the table."}
